@@ -18,12 +18,13 @@ Thorough == IOEnv.VERIF_TIER = "thorough"
 PV(s, a, b, c) == Q(((7 * a + 3 * b + 5 * c + 11 * s) % 9) - 4, 2)
 
 \* stage kinds: model, method, N, M, grid
-KindIds == {"A", "B", "C", "D", "E"}
+KindIds == {"A", "B", "C", "D", "E", "F"}
 KindOf(id) ==
   CASE id = "A" -> [rhs |-> "R1", meth |-> "MS", intg |-> "rk", N |-> 2, M |-> 1, geo |-> FALSE]
     [] id = "B" -> [rhs |-> "R2", meth |-> "SS", intg |-> "rk", N |-> 1, M |-> 2, geo |-> FALSE]       \* time in the ODE
     [] id = "C" -> [rhs |-> "R3", meth |-> "MS", intg |-> "expl_euler", N |-> 3, M |-> 1, geo |-> TRUE]
     [] id = "E" -> [rhs |-> "R7", meth |-> "MS", intg |-> "rk", N |-> 2, M |-> 2, geo |-> FALSE]        \* discrete time, uses DT / DT_control
+    [] id = "F" -> [rhs |-> "RA", meth |-> "MS", intg |-> "rk", N |-> 2, M |-> 1, geo |-> FALSE]        \* both kinds of per-interval parameter
     [] id = "D" -> [rhs |-> "R4", meth |-> "DC", intg |-> "radau2", N |-> 2, M |-> 1, geo |-> FALSE]
 
 StageDecl(kid, hz, t0v, Tv, withInt) ==
@@ -74,6 +75,7 @@ MkMulti(s) ==
       reset |-> s.reset, stagefirst |-> s.stagefirst,
       \* where the coupling constraints are declared: on the parent, or on the later / earlier of the two stages they connect
       \* (the NLP is the same: a point constraint is one row wherever it was declared)
+      valonly |-> s.valonly,      \* the history consists of set_value calls only: the live NLP is updated in place, nothing re-transcribes
       pon |-> s.pon,
       \* history variant: the last stage is added (directly or as a clone) only after the others have been transcribed once
       late |-> s.late]
@@ -81,26 +83,30 @@ MkMulti(s) ==
 KindSeqs == {<<a>> : a \in KindIds} \cup {<<a, b>> : a \in KindIds, b \in KindIds}
             \cup (IF Thorough THEN {<<a, b, c>> : a \in {"A", "B"}, b \in KindIds, c \in {"C", "D"}} ELSE {<<"A", "B", "D">>, <<"B", "C", "A">>})
 Space == {s \in [kinds : KindSeqs, hz : {"num", "fT", "fb"}, pat : {"none", "chain", "time"}, clone : BOOLEAN, withInt : BOOLEAN,
-                 reset : BOOLEAN, stagefirst : BOOLEAN, pown : BOOLEAN, pon : {"parent", "later", "earlier"}, late : BOOLEAN, seed : {Seed}] :
+                 reset : BOOLEAN, stagefirst : BOOLEAN, pown : BOOLEAN, pon : {"parent", "later", "earlier"}, late : BOOLEAN, valonly : BOOLEAN, seed : {Seed}] :
+            /\ (s.valonly => s.reset)
             /\ (s.late => Len(s.kinds) >= 2 /\ s.pon = "parent" /\ ~s.pown /\ ~s.reset /\ ~s.stagefirst /\ s.pat = "none" /\ s.clone)      \* nothing else invalidates after the stage is added
             /\ (s.pon # "parent" => s.pat = "chain" /\ ~s.pown /\ ~s.reset /\ ~s.stagefirst /\ Len(s.kinds) >= 2)
             /\ (s.pat = "time" => s.hz = "fb")
             /\ (s.stagefirst => ~s.reset /\ s.withInt)
             /\ (s.pown => ~s.reset /\ ~s.stagefirst /\ s.pat # "time")       \* the first transcribing call is stage.sample(...) on a sub-stage
             /\ (s.clone => \A i \in 1..Len(s.kinds) : s.kinds[i] = s.kinds[1])
-            /\ (s.reset => KindOf(s.kinds[1]).rhs \in {"R2", "R3", "R4"} /\ ~s.clone)
+            /\ (s.reset => KindOf(s.kinds[1]).rhs \in {"R2", "R3", "R4", "RA"} /\ ~s.clone)
+            /\ (\A i \in 1..Len(s.kinds) : s.kinds[i] = "F" => i = 1 /\ Len(s.kinds) <= 2)
             /\ (s.withInt => \A i \in 1..Len(s.kinds) : KindOf(s.kinds[i]).rhs # "R7")
             /\ (s.reset => KindOf(s.kinds[1]).rhs # "R7")}
-Code(s) == (IF s.late THEN 3 ELSE 0) + (CASE s.pon = "parent" -> 0 [] s.pon = "later" -> 1 [] OTHER -> 2) + (IF s.pown THEN 1 ELSE 0) + (IF s.stagefirst THEN 2 ELSE 0) + Len(s.kinds) + (IF s.clone THEN 3 ELSE 0) + (IF s.withInt THEN 1 ELSE 0) + (IF s.reset THEN 5 ELSE 0)
+Code(s) == (IF s.valonly THEN 1 ELSE 0) + (IF s.late THEN 3 ELSE 0) + (CASE s.pon = "parent" -> 0 [] s.pon = "later" -> 1 [] OTHER -> 2) + (IF s.pown THEN 1 ELSE 0) + (IF s.stagefirst THEN 2 ELSE 0) + Len(s.kinds) + (IF s.clone THEN 3 ELSE 0) + (IF s.withInt THEN 1 ELSE 0) + (IF s.reset THEN 5 ELSE 0)
            + (CASE s.hz = "num" -> 0 [] s.hz = "fT" -> 1 [] OTHER -> 2) + (CASE s.pat = "none" -> 0 [] s.pat = "chain" -> 7 [] OTHER -> 11)
-           + (CASE s.kinds[1] = "A" -> 0 [] s.kinds[1] = "B" -> 1 [] s.kinds[1] = "C" -> 2 [] s.kinds[1] = "E" -> 4 [] OTHER -> 3)
+           + (CASE s.kinds[1] = "A" -> 0 [] s.kinds[1] = "B" -> 1 [] s.kinds[1] = "C" -> 2 [] s.kinds[1] = "E" -> 4 [] s.kinds[1] = "F" -> 5 [] OTHER -> 3)
 Init == sc \in {s \in Space : Code(s) % Parts = Part}
 Next == UNCHANGED sc
 
 \* the declaration the harness reaches after the C12.h history: new parameter value, one more constraint and two more objective terms (Mayer, integral) on stage 1
 AfterReset(md) ==
   IF ~md.reset THEN md
-  ELSE [md EXCEPT !.stages[1].params[1].val = Tup([c \in 1..Len(@) |-> Add(@[c], R(2))]),
+  ELSE IF md.valonly
+  THEN [md EXCEPT !.stages[1].params = Tup([j \in 1..Len(@) |-> [kind |-> @[j].kind, val |-> Tup([c \in 1..Len(@[j].val) |-> Add(@[j].val[c], R(1 + j))])]])]
+  ELSE [md EXCEPT !.stages[1].params = Tup([j \in 1..Len(@) |-> [kind |-> @[j].kind, val |-> Tup([c \in 1..Len(@[j].val) |-> Add(@[j].val[c], R(1 + j))])]]),      \* every parameter of stage 1 gets a new value
                   !.stages[1].cons = Append(@, K2),
                   !.stages[1].quads = Append(@, Q2),
                   !.stages[1].obj = Append(Append(@, O2), IntQ(Len(md.stages[1].quads) + 1)),      \* a Mayer term and an integral term
